@@ -168,15 +168,16 @@ package types
 //@ spec func allSubsPresent(c [0]byte) bool
 //@ spec func subCount(c [0]byte) int
 //@ spec func subExpiry(c [0]byte, i int) uint64
+//@ spec func subHash(c [0]byte, i int) common.Hash
 // every sub-transaction of a box payload is inside its expiry window at time t (C04: a sub-transaction executes with its box)
 //@ pred subsInWindow(tx *Transaction, t uint64) = tx.data.Type != params.BoxTx || boxBad(content(tx.data.Data)) || forall(j, 0, subCount(content(tx.data.Data)), t <= subExpiry(content(tx.data.Data), j) && subExpiry(content(tx.data.Data), j) - t <= 1800)
 //@ pred boxOK(tx *Transaction) = tx.data.Type != params.BoxTx || boxBad(content(tx.data.Data)) || allSubsPresent(content(tx.data.Data))
 //@ func GetBox   trusted
 //@   modifies nothing
 //@   ensures result1 != nil <==> boxBad(content(txData))
-//@   ensures result1 == nil ==> result0 != nil
+//@   ensures result1 == nil ==> result0 != nil && fresh(result0.SubTxList)
 //@   ensures result1 == nil ==> len(result0.SubTxList) == subCount(content(txData))
-//@   ensures result1 == nil ==> forall(i, 0, len(result0.SubTxList), result0.SubTxList[i] != nil ==> result0.SubTxList[i].data.Expiration == subExpiry(content(txData), i))
+//@   ensures result1 == nil ==> forall(i, 0, len(result0.SubTxList), result0.SubTxList[i] != nil ==> result0.SubTxList[i].data.Expiration == subExpiry(content(txData), i) && result0.SubTxList[i].Hash() == subHash(content(txData), i))
 //@   ensures result1 == nil && allSubsPresent(content(txData)) ==> forall(i, 0, len(result0.SubTxList), result0.SubTxList[i] != nil)
 //@   ensures result1 == nil && !allSubsPresent(content(txData)) ==> exists(i, 0, len(result0.SubTxList), result0.SubTxList[i] == nil)
 //@   ensures result1 == nil ==> forall(i, 0, len(result0.SubTxList), result0.SubTxList[i] != nil ==> result0.SubTxList[i].data.GasPrice != nil && result0.SubTxList[i].data.Amount != nil)
